@@ -119,6 +119,14 @@ def emit(ns, snap, terms, nonterms):
     w('def prods : List (Nat × List Nat) := %s' % ' ++ '.join(names))
     w('def prodFuncs : List String := %s' % lean_list([lean_str(f or '') for _, _, f in prods]))
     w('def prodLhsNames : List String := %s' % lean_list([lean_str(n) for n, _, _ in prods]))
+    # the grammar as sorted text lines "lhs -> sym sym …" (order-insensitive comparison with Spec.Es5Grammar)
+    glines = sorted('%s -> %s' % (n, ' '.join(rhs)) for n, rhs, _ in prods[1:])
+    gch = []
+    for c in range(0, len(glines), 60):
+        nm = 'grammarChunk%d' % (c // 60)
+        gch.append(nm)
+        w('def %s : List String := %s' % (nm, lean_list([lean_str(x) for x in glines[c:c + 60]])))
+    w('def grammarLines : List String := %s' % ' ++ '.join(gch))
     nstates = max(snap['action'].keys()) + 1
     assert sorted(snap['action'].keys()) == list(range(nstates)), 'action table has holes'
     for tbl, enc in (('action', None), ('goto', None)):
